@@ -49,6 +49,44 @@ func Generate(profile string, seed uint64, tier string) (*Scenario, error) {
 		}
 		sc.Datasets = c.Datasets
 		sc.Ops = g.GenStoreHistory(c)
+	case "C06":
+		sc.Property = "C06"
+		c := g.baseStoreCfg(tier)
+		c.NOps = g.Range(4, 14)
+		c.PRefHeavy = 0.8
+		c.PNested = 0
+		c.PRestart = 0.05
+		if len(c.Pool) > 4 {
+			c.Pool = c.Pool[:4]
+		}
+		sc.Datasets = c.Datasets
+		ops := g.GenStoreHistory(c)
+		marks := 0
+		for _, op := range ops {
+			if (op.K == "batch" || op.K == "txn") && marks < 4 && g.P(0.3) {
+				op.M = map[string]any{"markBefore": true}
+				marks += 2
+			}
+			sc.Ops = append(sc.Ops, op)
+			if marks < 5 && g.P(0.15) {
+				sc.Ops = append(sc.Ops, Op{K: "mark", Sleep: int64(g.PickInt([]int{1, 1, 1000}))})
+				marks++
+			}
+			if g.P(0.2) {
+				var scope []any
+				if g.P(0.4) {
+					scope = append(scope, g.Pick(c.Datasets))
+				}
+				pred := "*"
+				if g.P(0.4) {
+					pred = g.Pick(c.Preds)
+				}
+				sc.Ops = append(sc.Ops, Op{K: "pageStart", S: g.Pick(c.Pool), DS: pred, Latest: g.P(0.5), A: scope, Limit: g.Range(1, 2)})
+			}
+			if g.P(0.1) {
+				sc.Ops = append(sc.Ops, Op{K: "pageContinue"})
+			}
+		}
 	case "C05":
 		sc.Property = "C05"
 		genC05(g, sc, tier)
@@ -185,7 +223,7 @@ func hashStr(s string) uint64 {
 // Execute dispatches a scenario to the executor of its profile.
 func Execute(sc *Scenario) *Verdict {
 	switch sc.Profile {
-	case "C01", "C02", "C03":
+	case "C01", "C02", "C03", "C06":
 		return RunStoreScenario(sc)
 	case "C05", "C02c":
 		return RunConcScenario(sc)
